@@ -328,14 +328,6 @@ def evalLookups (ρ : Env) (heads : List (String × Head)) (tm : Name) : List St
     let hs ← evalLookups ρ heads tm rest
     pure (h :: hs)
 
-/-- `List[x]`: typing insists that `x` is a type (callable); a dict, a scalar *instance* or
-    `Undefined` is not -/
-def typeParamOK : Binding → Bool
-  | .builtin (.std _) => false
-  | .builtin .undefined => false
-  | .builtin _ => true
-  | _ => false
-
 /-- `interfaces=` / `types=`: `[]` or `lambda: cast(List[elemCls], [tm["k"], …])`, every element an
     instance of the class the constructor insists on (`want`) -/
 def evalNames (ρ : Env) (heads : List (String × Head)) (want : Kind) : NamesE → Except PyErr (List Name)
@@ -343,11 +335,10 @@ def evalNames (ρ : Env) (heads : List (String × Head)) (want : Kind) : NamesE 
   | .thunk castFn listName elemCls tm keys => do
     let c ← callee ρ castFn
     let l ← callee ρ listName
-    let e ← callee ρ elemCls
+    let _ ← callee ρ elemCls      -- `List[x]` accepts any object as parameter (CPython 3.12); only an unbound name fails
     let hs ← evalLookups ρ heads tm keys
     require (c == .builtin .cast) (.typeError "callee is not typing.cast")
     require (l == .builtin .typingList) (.typeError "subscripted object is not typing.List")
-    require (typeParamOK e) (.typeError "Parameters to generic types must be types.")
     require (hs.all fun h => h.1 == want) (.typeError "must be specified as a collection of … instances")
     pure (hs.map (·.2))
 
